@@ -1,6 +1,7 @@
 import QclibModel.Model.DriverLib
 import QclibModel.Model.Tree
 import QclibModel.Model.FloatOps
+import QclibModel.Gen.TreeWidth
 open Lean Qclib Qclib.Drv
 
 /-- `Float` instance of the tree operations (driver only).  `x ** 2` is C `pow(x, 2.0)`,
@@ -43,7 +44,17 @@ def dump (sl : Nat) (r : Option (TreeOut Float)) : List String :=
     ++ (allocTable 0 0 t.alloc.tree).map (fun (l, i, q) => s!"alloc {l} {i} {q} ;")
     ++ circLines t.gates
 
+/-- Double tie of the translation: the definitions generated from the current source of bdsp.py /
+dcsp.py, run on (`len`, `opt_params is None`, `opt_params.get('split')`). -/
+def genWidths (j : Json) : List String :=
+  let len : Int := Int.ofNat (jNat j "len")
+  let optSplit : Option Int := if jBool j "has_split" then some (Int.ofNat (jNat j "s")) else none
+  let split := Qclib.Gen.TreeWidth.bdsp_split len (jBool j "opt_none") optSplit
+  [s!"split {split} ;", s!"declared {Qclib.Gen.TreeWidth.bdsp_num_qubits split len} ;",
+   s!"dcsp {Qclib.Gen.TreeWidth.dcsp_num_qubits len} ;"]
+
 def runOp (j : Json) : List String :=
+  if jStr j "op" == "gen_widths" then genWidths j else
   let mag := jFloats j "mag"
   let arg := jFloats j "arg"
   let leaves : Nat → SV Float := fun k => ⟨mag.getD k 0.0, arg.getD k 0.0⟩
